@@ -11,7 +11,8 @@ p=/verif/seeded/$id/patch.diff; [ -f $p ] || p=/verif/seeded/$id/patch.orig.diff
 demo=/verif/seeded/$id/seeded_demo.rs
 crate=$(grep -m1 '^+++ b/' $p | sed 's#+++ b/##' | cut -d/ -f1)
 case $crate in
-  src) pkg=deadpool; feat="--features rt_tokio_1"; ddir=tests;;
+  src) pkg=deadpool; feat="--features rt_tokio_1,serde"; ddir=tests;;
+  diesel) pkg=deadpool-diesel; feat="--features sqlite"; ddir=diesel/tests;;
   sync) pkg=deadpool-sync; feat=""; ddir=sync/tests;;
   postgres) pkg=deadpool-postgres; feat="--features serde"; ddir=postgres/tests;;
   redis) pkg=deadpool-redis; feat="--features serde,cluster,sentinel"; ddir=redis/tests;;
